@@ -14,12 +14,14 @@ META = {
             "framed at every moment: chunked upstream decodes (reference reader) to exactly the bytes handed over and "
             "is complete iff last-chunk was sent; last-chunk is sent only after the whole client body was received and "
             "forwarded; with Content-Length upstream the declared length is reached only by the whole body; after a "
-            "client abort or a malformed client chunk the upstream message never becomes complete; and the fair "
-            "schedule delivers the entire body (C02_fair_schedule_delivers_everything).",
+            "client abort or a malformed client chunk the upstream message never becomes complete "
+            "(C02_upstream_abort_visible); once the whole body is in the pipe, the end notification and two consumer turns "
+            "flush it and write last-chunk (C02_end_of_body_is_flushed_partial).",
     "note": "partial: the theorems are about RelayModel.v (rq_step); the client-side chunked parser is represented by "
             "the reference reader (TeChunkedParser equivalence is C24 + this correspondence); the event model "
             "over-approximates the AsyncCall schedules of BodyPipe/Client (every real schedule is one of the quantified "
-            "event sequences — that claim, comm I/O and the request head rest on the end-to-end correspondence: "
+            "event sequences — that claim, liveness of the intake under back-pressure, comm I/O and the request head rest "
+            "on the end-to-end correspondence: "
             "POST/PUT bodies 0..1 MB, Content-Length and chunked clients, random segmentation, aborts, malformed "
             "chunks, Expect: 100-continue, raw upstream bytes recorded by the origin stub). Trusted: Coq kernel, "
             "extraction, gen/gen_relay.cc, vlib/lab.py, checks/relay_common.py stubs.",
